@@ -43,6 +43,7 @@ type C04Case struct {
 	Hangup  bool         `json:"hangup"`     // every peer closes its connection right after its last byte, without waiting
 	SlowNs  int64        `json:"slow_ns"`    // virtual time the incoming handler spends on each message (0: none)
 	AtOnce  bool         `json:"at_once"`    // all connections are pending at the listener at the same moment
+	RemoveAfter int      `json:"remove_after"` // > 0: every connection has a second all-types subscriber, which the application removes (with the id it was given) from inside the first one's k-th call; the first one must go on receiving
 	SetupNs int64        `json:"setup_ns"`   // acceptor: virtual time the new-client callback takes before it registers its handlers, while the peer's first bytes are already arriving
 	Conns   []ConnScript `json:"conns"`
 	Senders [][]OutOp    `json:"senders"`
@@ -151,6 +152,9 @@ func genC04(t *rapid.T) *C04Case {
 	for i := 0; i < nc; i++ {
 		c.Conns = append(c.Conns, genConnScript(t, i))
 	}
+	if rapid.IntRange(0, 4).Draw(t, "removesSubscriber") == 0 {
+		c.RemoveAfter = rapid.IntRange(1, 5).Draw(t, "removeAfter")
+	}
 	ns := rapid.IntRange(0, 6).Draw(t, "nSenders")
 	for s := 0; s < ns; s++ {
 		var ops []OutOp
@@ -180,6 +184,9 @@ type recorder struct {
 	inside int32
 	reent  bool
 	slow   time.Duration
+	open   int    // messages delivered before the peers closed their connections
+	after  int    // after this many calls ...
+	then   func() // ... do this once (from inside the handler)
 }
 
 func (r *recorder) handle(data []byte) bool {
@@ -191,7 +198,11 @@ func (r *recorder) handle(data []byte) bool {
 	}
 	r.mu.Lock()
 	r.got = append(r.got, append([]byte(nil), data...))
+	fire := r.then != nil && len(r.got) == r.after
 	r.mu.Unlock()
+	if fire {
+		r.then()
+	}
 	atomic.AddInt32(&r.inside, -1)
 	return true
 }
@@ -243,6 +254,10 @@ func checkC04(c *C04Case, rec *evid.Rec) (vs []pbt.Violation) {
 					time.Sleep(time.Duration(c.SetupNs)) // the application takes its time; the peer does not wait
 				}
 				h.HandleIncoming(simplefixgo.AllMsgTypes, recs[i].handle)
+				if c.RemoveAfter > 0 {
+					id2 := h.HandleIncoming(simplefixgo.AllMsgTypes, func([]byte) bool { return true })
+					recs[i].after, recs[i].then = c.RemoveAfter, func() { _ = h.RemoveIncomingHandler(simplefixgo.AllMsgTypes, id2) }
+				}
 				if i == 0 {
 					h.HandleOutgoing(simplefixgo.AllMsgTypes, outHandler)
 					h0 = h
@@ -261,6 +276,10 @@ func checkC04(c *C04Case, rec *evid.Rec) (vs []pbt.Violation) {
 			ir = rig.NewInitiatorRig(c.Buf, 10*time.Second)
 			conns[0] = ir.C
 			ir.H.HandleIncoming(simplefixgo.AllMsgTypes, recs[0].handle)
+			if c.RemoveAfter > 0 {
+				id2 := ir.H.HandleIncoming(simplefixgo.AllMsgTypes, func([]byte) bool { return true })
+				recs[0].after, recs[0].then = c.RemoveAfter, func() { _ = ir.H.RemoveIncomingHandler(simplefixgo.AllMsgTypes, id2) }
+			}
 			ir.H.HandleOutgoing(simplefixgo.AllMsgTypes, outHandler)
 			h0 = ir.H
 			close(ready0)
@@ -324,6 +343,12 @@ func checkC04(c *C04Case, rec *evid.Rec) (vs []pbt.Violation) {
 		synctest.Wait()
 		time.Sleep(time.Duration(c.SlowNs)*40 + time.Duration(c.SetupNs)*time.Duration(len(c.Conns)) + time.Second) // slow callbacks and handlers finish their backlog
 		synctest.Wait()
+		// what has been delivered while every connection is still open
+		for i := range recs {
+			recs[i].mu.Lock()
+			recs[i].open = len(recs[i].got)
+			recs[i].mu.Unlock()
+		}
 		// end of case: peers close, then the local side shuts down
 		for _, cn := range conns {
 			cn.PeerClose()
@@ -398,6 +423,10 @@ func checkC04(c *C04Case, rec *evid.Rec) (vs []pbt.Violation) {
 		r := recs[i]
 		if r.reent {
 			vs = append(vs, pbt.V("reentrant-delivery", "connection %d: the incoming handler was entered while a previous call was still running", i))
+		}
+		if !c.Hangup && r.open < len(cs.Msgs) && len(r.got) == len(cs.Msgs) {
+			vs = append(vs, pbt.V("inbound-late:"+cs.Style, "connection %d (%s, role %s, %d connections): only %d of %d messages had been delivered while the connection was still open (long after the last byte arrived); the rest came when the connections were closed", i, cs.Style, c.Role, len(c.Conns), r.open, len(cs.Msgs)))
+			continue
 		}
 		if len(r.got) != len(cs.Msgs) {
 			// a peer that hangs up right after its last byte: the messages still
@@ -551,6 +580,9 @@ func checkC04(c *C04Case, rec *evid.Rec) (vs []pbt.Violation) {
 	}
 	if c.SetupNs > 0 {
 		rec.Hist("slow-new-client-callback")
+	}
+	if c.RemoveAfter > 0 {
+		rec.Hist("application-removes-a-subscriber")
 	}
 	rec.Hist(fmt.Sprintf("buf=%d", c.Buf))
 	rec.Hist(fmt.Sprintf("connections=%d", len(c.Conns)))
